@@ -325,7 +325,7 @@ pub fn run(ctx: &Ctx, report: &mut Report) {
             REFUSED / SERVFAIL outcomes compared with the reference dispatch incl. AA clear and no records. Non-trivial = distinct \
             (outcome, matched-entry depth, catalog)."
             .into();
-        run_prop(ctx, report, PropSpec { name: "dispatch", cases: ctx.tier.pick(30_000, 600_000), max_shrink_iters: 4096 }, c07_case, oracle_c07);
+        run_prop(ctx, report, PropSpec { name: "dispatch", cases: ctx.tier.pick(120_000, 1_500_000), max_shrink_iters: 4096 }, c07_case, oracle_c07);
     } else {
         report.rule = "generated catalogs (nested zones with delegations, glue above/below cuts, sibling glue, wildcards incl. at empty \
             non-terminals and below cuts, CNAME chains of 1-10 links ending in data / NODATA / NXDOMAIN / outside / loop / below a cut / \
@@ -335,7 +335,7 @@ pub fn run(ctx: &Ctx, report: &mut Report) {
             wildcard owners, SOA MINIMUM < 2^31. evaluations = queries. Non-trivial = catalog for which some query took a path other \
             than plain NODATA/NXDOMAIN (paths are counted in classes)."
             .into();
-        run_prop(ctx, report, PropSpec { name: "resolution", cases: ctx.tier.pick(2_500, 60_000), max_shrink_iters: 3000 }, c05_case, oracle_c05);
+        run_prop(ctx, report, PropSpec { name: "resolution", cases: ctx.tier.pick(10_000, 120_000), max_shrink_iters: 3000 }, c05_case, oracle_c05);
     }
     report.assumptions.push("vmodel::resolve (Appendix A) over vmodel::zone; CNAME chasing stays inside the QNAME's zone (documented behaviour)".into());
 }
